@@ -359,3 +359,56 @@ func c06StreamBad(x *X) {
 func init() {
 	register(&Scenario{Prop: "C06", Name: "c06/unencodable-stream-message-then-calls", Quick: []Bound{{0, 0}, {1, 0}}, Thorough: []Bound{{2, 0}}, Body: c06StreamBad, BudgetQ: 15})
 }
+
+// through a Transport: a failing call whose error text looks like a library or I/O error ("EOF",
+// "timeout", "dial failed", ...) is an ordinary server-side error: it fails that call only; a
+// call outstanding on the same pooled connection and later calls are unaffected and the
+// connection stays in use.  (The one text the protocol itself reserves, "The connection is shut
+// down", is excluded: see DESIGN.md, observed behaviour.)
+var c06SentinelTexts = []string{"EOF", "unexpected EOF", "timeout", "dial failed", "io: read/write on closed pipe", "write: broken pipe", "context canceled", "use of closed network connection"}
+
+func c06Transport(x *X) {
+	text := c06SentinelTexts[x.Choose(len(c06SentinelTexts))]
+	form := []int{formCall, formGo, formCallCtx}[x.Choose(3)]
+	t := newTrSys(x, "C06", 1, 1)
+	t.longCall("a")
+	w := t.w["a"]
+	c := newUcall(0x71, fErr, 14, form)
+	w.errText[0x71] = text
+	var err error
+	switch form {
+	case formGo:
+		done := make(chan *rpc.Call, 1)
+		call := t.tr.Go("a", c.method, &c.args, &c.reply, done)
+		recvCall(done)
+		err = call.Error
+	case formCallCtx:
+		err = t.tr.CallWithContext(context.Background(), "a", c.method, &c.args, &c.reply)
+	default:
+		err = t.tr.Call("a", c.method, &c.args, &c.reply)
+	}
+	if err == nil || err.Error() != text {
+		x.Fail("C06/error-text/transport", "the handler returned %q, the Transport call returned %v", text, err)
+	}
+	vs.Quiesce()
+	after := newUcall(0x72, 0, 20, formCall)
+	aerr := t.tr.Call("a", after.method, &after.args, &after.reply)
+	if aerr != nil || !eqBytes(after.reply, after.want()) {
+		x.Fail("C06/neighbour-failed/transport", "a call after the failing one (error text %q): %v", text, aerr)
+	}
+	t.release()
+	for _, l := range t.long {
+		if !l.c.ret || l.c.err != nil || !eqBytes(l.c.reply, l.c.want()) {
+			x.Fail("C06/neighbour-failed/transport", "the call that was outstanding on the pooled connection when another call failed with the server-side text %q: returned=%v err=%v", text, l.c.ret, l.c.err)
+		}
+	}
+	if d := t.n.dials["a"]; d != 1 {
+		x.Fail("C06/connection-replaced/transport", "a server-side error with the text %q made the Transport replace its healthy connection (%d dials)", text, d)
+	}
+	x.Outcome("text=%q form=%d err=%s", text, form, errStr(err))
+	t.shutdown()
+}
+
+func init() {
+	register(&Scenario{Prop: "C06", Name: "c06/transport-sentinel-texts", Quick: []Bound{{0, 0}, {1, 0}}, Thorough: []Bound{{2, 0}}, Body: c06Transport, MaxSteps: 200000, BudgetQ: 15})
+}
